@@ -45,7 +45,7 @@ REQUIRED = ['export_to_tsv', 'export_str', 'export_direct_io',
 _TAXA = ['k__Bacteria', 'p__Firmicutes', 'c__[Bacilli]', 'o__é', 'g__日本',
          's__x y', 'Unassigned', 'f__a/b', "d__it's", 'q__"x"']
 ID_OK = ['ascii', 'one', 'long', 'punct', 'space', 'slash', 'numeric',
-         'natsort', 'latin1', 'cjk', 'astral', 'mixed']
+         'natsort', 'latin1', 'cjk', 'astral', 'prefix', 'case', 'mixed']
 
 
 def plan(tier):
